@@ -2,6 +2,8 @@
 # usage: check.sh <property id> <quick|thorough>
 # Rebuilds the harness (and flexi_logger with the verif_hooks feature) from /repo's current
 # working tree, then runs the check. Exit: 0 held, 1 violation, 2 inconclusive/infrastructure.
+# The thorough tier adds the coverage-guided stage (tools/fuzz_stage.py, libFuzzer) for the
+# properties that have one; it runs only if the generated-case stage found nothing.
 ID="$1"; TIER="${2:-quick}"
 ROOT="$(cd "$(dirname "$0")" && pwd)"
 cd "$ROOT/harness" || exit 2
@@ -9,4 +11,10 @@ if ! CARGO_NET_OFFLINE=true cargo build --release --offline >"$ROOT/harness/buil
   echo "BUILD FAILED (see $ROOT/harness/build.log)"; tail -30 "$ROOT/harness/build.log"; exit 2
 fi
 cd "$ROOT" || exit 2
-exec "$ROOT/harness/target/release/flv" check "$ID" --tier "$TIER"
+if [ "$TIER" != "thorough" ]; then
+  exec "$ROOT/harness/target/release/flv" check "$ID" --tier "$TIER"
+fi
+"$ROOT/harness/target/release/flv" check "$ID" --tier thorough
+CODE=$?
+[ "$CODE" -ne 0 ] && exit "$CODE"
+exec python3 "$ROOT/tools/fuzz_stage.py" "$ID"
